@@ -44,7 +44,11 @@ THEOREM TrimOnly ==
          {TrimTok(e) : e \in o1.xn} = {TrimTok(e) : e \in o2.xn},
          {TrimTok(e) : e \in o1.inn} = {TrimTok(e) : e \in o2.inn}
   PROVE  Sel(R, o1, M) = Sel(R, o2, M) /\ Err(R, o1, M) = Err(R, o2, M)
-  BY DEF Sel, Err, FilterResult, EmptyOpts, TrimTok
+  <1>1. (o1.xn = {} <=> o2.xn = {}) /\ (o1.inn = {} <=> o2.inn = {})
+        OBVIOUS
+  <1>2. EmptyOpts(o1) <=> EmptyOpts(o2)
+        BY <1>1 DEF EmptyOpts
+  <1> QED BY <1>2 DEF Sel, Err, FilterResult, TrimTok
 \* filtering is a restriction: over a sub-universe on which the options are still valid, the same options select the restriction
 THEOREM Restriction ==
   ASSUME NEW R, NEW S \in SUBSET R, NEW o, NEW M, Err(R, o, M) = "none", Err(S, o, M) = "none"
